@@ -80,14 +80,14 @@ add("C03",
     level="fault_enumeration",
     technique="exhaustive crash-point and single-failure enumeration over explored linearisations of the real commands (gate scheduler + recording store)",
     design_ref="DESIGN.md §4.3, §5 C03",
-    level_text="For 17 command scenarios (backup with parent and mid-run index saves, copy into a non-empty repository, merge, rewrite+forget, repair snapshots after a pack loss, "
-               "repair index default/read-all/after index loss, forget, five prune variants, config change, key add/delete) the store is snapshotted after every mutating backend call of the "
+    level_text="For 21 command scenarios (backup with parent and mid-run index saves, copy into a non-empty repository, merge, rewrite+forget, repair snapshots after a pack loss, "
+               "repair index default/read-all/after index loss, forget, nine prune variants (incl. repacked tree packs and early-delete-index set without instant-delete, which is documented to have no effect alone), config change, key add/delete) the store is snapshotted after every mutating backend call of the "
                "default linearisation and of every linearisation with <=2 (quick) / <=3 (thorough) completion-order deviations; on every distinct crash state a fresh uncached handle must open the repository "
                "and read every visible snapshot completely with an acceptable (old or new) content. Additionally every mutating call index is made to fail once: the command must return Err, terminate, and leave such a state.",
     level_note="Crash = loss of all calls after a prefix of the observed linearisation (backend calls are atomic, as with rename-publishing backends, C20). Snapshots that were already unreadable before the command are exempt by id. "
                "Hot/cold interruption is C16.",
     shards={"quick": 16, "thorough": 16},
-    require_counts=["linearisations:backup-with-parent", "linearisations:prune-repack-slow", "failed_call_runs", "crash_states"],
+    require_counts=["linearisations:backup-with-parent", "linearisations:prune-repack-slow", "linearisations:prune-early-delete-index-alone", "failed_call_runs", "crash_states"],
     )
 
 add("C10",
@@ -126,14 +126,14 @@ add("C08",
     level="exploration",
     technique="bounded exhaustive enumeration: configuration grid x scripted histories of every pack writer, independent decoding of every pack, every subset of index files removed before repair-index",
     design_ref="DESIGN.md §4.1, §5 C08",
-    level_text="For each configuration of a grid (repo v1 / v2 default compression / v2 uncompressed / v2 level 19; one-blob, 300 B and 4 MiB packs; tiny and default chunker) one history runs every pack writer "
+    level_text="For each configuration of a grid (repo v1 / v2 default compression / v2 uncompressed / v2 level 19; one-blob, 300 B and 4 MiB packs; tiny and default chunker; plus four v2 configurations whose compression is switched through apply_config between two backups, so that the fast repack merges compressed and uncompressed blobs - 41 and 37 byte header entries - into the same packs) one history runs every pack writer "
                "(backup, prune with re-encoding, fast and uncompressed repack, merge, rewrite, copy into a repository with another key and configuration, repair snapshots). After every step every pack in the store "
                "is decoded by an independent parser: name = sha256, trailer/header lengths, entries in file order with contiguous offsets, each blob decrypts, inflates to the recorded length and hashes to its id, "
                "and the (id,type,offset,length,uncompressed length) sequence and size equal every index entry of that pack. At three points every non-empty subset of index files is removed; repair-index must succeed, "
                "all snapshots must read back to the source model, packs and index must agree again and check must be clean.",
     level_note="Histories are fixed scripts (the state space of histories is C02's subject); the grid bounds blob sizes to what tiny chunker parameters and a 1.2 KiB source produce.",
     shards={"quick": 16, "thorough": 16},
-    require_counts=["index_subsets_removed", "packs_verified"],
+    require_counts=["index_subsets_removed", "packs_verified", "packs_mixing_encodings", "compression_switched"],
     )
 
 add("C07",
@@ -141,13 +141,13 @@ add("C07",
     level="model_checking",
     technique="explicit-state BFS over edit scripts between real backups, compared with an independent reference chunker",
     design_ref="DESIGN.md §4.1, §5 C07",
-    level_text="Breadth-first search (depth 3 quick / 4 thorough after an initial backup) over 12 edits {none, touch, prepend 1/64 bytes, insert at a chunk boundary / mid-chunk, delete a range, overwrite a range, duplicate file, rename, "
-               "move directory, add a file equal to one chunk, add a file equal to a serialised tree} from three base sources (multi-chunk, shared region, repetitive). Every transition is one real backup through a fresh handle; "
+    level_text="Breadth-first search (depth 3 quick / 4 thorough after an initial backup) over 16 edits {none, touch, prepend 1/64 bytes, insert at a chunk boundary / mid-chunk, delete a range, overwrite a range, duplicate file, rename, "
+               "move directory, add a file equal to one chunk, add a file equal to a serialised tree, revert the previous edit, touch a directory, add twin files (index flushed after every second blob), and - as a probe at depth <= 2 whose effect is discarded - add twin files separated by 400 pack-filling files, more than all bounded in-order buffers between the walk and the indexer can hold, so that the first copy is indexed before the second arrives on every schedule} from three base sources (multi-chunk, shared region, repetitive). Every transition is one real backup through a fresh handle; "
                "the data blobs in the packs it wrote must equal exactly {chunks of the new source by an independent bit-serial Rabin chunker} minus {data blobs indexed before}, written trees must be new and referenced, "
                "an unchanged source must write no pack and keep the tree id, summary counters must equal what the packs hold, and a data blob sharing its id with a tree must be stored next to it.",
     level_note="Tiny chunker parameters (64/64/256) make 3 KiB files multi-chunk; the default chunker is used where a whole file must be one chunk. Trees are compared by reference structure, not re-serialised independently.",
     shards={"quick": 16, "thorough": 16},
-    require_counts=["unchanged_backups", "edits_with_reused_chunks", "edits_resynchronised_after_change", "tree_data_id_collisions_kept"],
+    require_counts=["unchanged_backups", "edits_with_reused_chunks", "edits_resynchronised_after_change", "tree_data_id_collisions_kept", "far_twins_probes"],
     )
 
 add("C11",
@@ -183,9 +183,9 @@ add("C05",
     level="fault_enumeration",
     technique="exhaustive single-fault enumeration over every stored file of repositories produced by real histories, judged by the real check and restore paths",
     design_ref="DESIGN.md §4.4, §5 C05",
-    level_text="Five repositories built by real histories (fresh; after forget+prune with marked packs; duplicate blobs written through a stale handle; one-blob packs; repo version 1). For every stored file except config: remove; "
+    level_text="Seven repositories built by real histories (fresh; two snapshots with the same time; after forget+prune with marked packs; after forget and a prune keeping partly used packs; duplicate blobs written through a stale handle; one-blob packs; repo version 1). For every stored file except config: remove; "
                "truncate (boundary lengths quick / every length thorough); flip (quick: one bit of every byte, all 8 bits of every nonce, MAC and trailer byte; thorough: every bit); append; replace by each sibling of the same type; "
-               "same plaintext under another key; and for index files duplicate/drop a pack entry and drop a blob entry (re-sealed). Each faulted store is judged by the real `check --read-data`; if it is clean every snapshot must restore to its source "
+               "same plaintext under another key; and for index files duplicate/drop a pack entry and drop a blob entry (re-sealed). Each faulted store is judged by the real `check --read-data` - for faults in pack files also through a handle with a local cache filled from the intact repository and --trust-cache, where --read-data still promises that packs are read from the repository; if it is clean in either mode every snapshot must restore to its source "
                "under the index listing in insertion and reversed order (thorough: all rotations x reversal). The unfaulted stores must be clean and restorable.",
     level_note="Files larger than 2 KiB get their structural regions completely and ciphertext on a stride. check sleeps 100 ms per run, so cases run 48 at a time per worker.",
     shards={"quick": 16, "thorough": 16},
@@ -277,10 +277,10 @@ add("C19",
     design_ref="DESIGN.md §4.1, §5 C19",
     level_text="Breadth-first search (depth 3 quick / 4 thorough) from two initial states over {backup, get_all_snapshots, get_snapshots([full id]), forget, prune, check with and without trust-cache, read all snapshots} through a handle with a real cache directory on tmpfs - "
                "each run in parallel through an uncached handle on a clone of the same repository: result (canonicalised Ok payload or Err) and resulting repository must be equal - interleaved with {backup, forget, prune} through an uncached handle (another process) "
-               "and the cache faults truncate a cached file, append bytes to it, replace it by other bytes of the same size, plant junk names. After every operation that lists a file type, the cache must hold no snapshot/index file the repository lacks or stores with another size.",
+               "and the cache faults truncate a cached file, append bytes to it, replace it by other bytes of the same size, replace a cached tree pack by a longer foreign file, plant foreign files under data-pack names, make an entry unreadable (a directory under its name), plant junk names. After every operation that lists a file type, the cache must hold no snapshot/index file the repository lacks or stores with another size.",
     level_note="The cache directory content is part of the canonical state (described by decoded file content, not by ids).",
     shards={"quick": 16, "thorough": 16},
-    require_counts=["differential_comparisons", "action:TruncateCached", "action:uncached:Forget"],
+    require_counts=["differential_comparisons", "action:TruncateCached", "action:UnreadableCached", "action:uncached:Forget"],
     )
 
 add("C12",
@@ -290,12 +290,12 @@ add("C12",
     design_ref="DESIGN.md §4.1, §5 C12",
     level_text="copy: two source repositories (one holding tree/data id collisions) x four destinations (empty; already holding some blobs; other key + repo v1 + one-blob packs; other key + compression 19 + default chunker) x every non-empty subset of three snapshots sharing blobs: "
                "each copied snapshot must restore identically, the destination must pass check --read-data and hold no blob twice. merge: every pair (and triples over a subset) of trees with entries a,b of kind {absent, file v1, file v2, symlink, dir with sub-entries} under three orderings "
-               "(last modified, first modified, always equal): the merged tree must be a valid merge by a recursive reference (union of names, winner among the maximal candidates, directories merged from all contending directories). rewrite: three trees x every set of <=2 of four exclude globs x forget: "
+               "(last modified, first modified, always equal): the merged tree must be a valid merge by a recursive reference (union of names, winner among the maximal candidates, directories merged from all contending directories). rewrite: five trees (one with twin directories, one with names differing in letter case only) x every set of <=2 of six exclude globs x the four ways of passing them (globs, iglobs, a glob file, an iglob file) x forget: "
                "result equals the source minus the excluded paths with identical metadata, originals removed iff forget. repair: an undamaged repository is left untouched with zero writes; for every single pack removed (+repair-index) and every single blob entry dropped from the index, x delete: "
                "every new snapshot is completely readable, every entry not carrying the suffix has its original content, no path vanishes unless a tree was lost, originals are removed only with delete.",
-    level_note="states = distinct (scenario, result) pairs; glob semantics are transcribed by hand for the four exclude patterns used.",
+    level_note="states = distinct (scenario, result) pairs; glob semantics (case-sensitive and -insensitive) are transcribed by hand for the six exclude patterns used.",
     shards={"quick": 16, "thorough": 16},
-    require_counts=["copy_cases", "merge_cases", "rewrite_cases", "repair_cases", "repaired_marked_entries", "copy_into_nonempty_wrote_packs"],
+    require_counts=["copy_cases", "merge_cases", "rewrite_cases", "rewrite_via:glob_files", "rewrite_via:iglobs", "repair_cases", "repaired_marked_entries", "copy_into_nonempty_wrote_packs"],
     )
 
 add("C01",
